@@ -180,6 +180,7 @@ func reverify(ob string) string {
 	if err != nil {
 		return "engine fault: " + err.Error()
 	}
+	setTransparent(p, rel)
 	x := sym.NewExec(p.Prog, p.Specs)
 	var rep *sym.FuncReport
 	path := load.ModulePath + "/" + rel
